@@ -1,8 +1,10 @@
-package main
+// Package hx is the shared part of the verification harness: PRNG, output streams, panic capture.
+package hx
 
 import (
 	"bufio"
 	"encoding/json"
+	"flag"
 	"fmt"
 	"os"
 	"path/filepath"
@@ -11,29 +13,29 @@ import (
 
 // rng is a splitmix64 generator; every random choice of a run derives from one state
 // seeded by VERIF_SEED so a disagreement replays exactly.
-type rng struct{ s uint64 }
+type Rng struct{ s uint64 }
 
-func newRng(seed uint64) *rng { return &rng{s: seed*0x9E3779B97F4A7C15 + 0x1234567} }
-func (r *rng) next() uint64 {
+func NewRng(seed uint64) *Rng { return &Rng{s: seed*0x9E3779B97F4A7C15 + 0x1234567} }
+func (r *Rng) Next() uint64 {
 	r.s += 0x9E3779B97F4A7C15
 	z := r.s
 	z = (z ^ (z >> 30)) * 0xBF58476D1CE4E5B9
 	z = (z ^ (z >> 27)) * 0x94D049BB133111EB
 	return z ^ (z >> 31)
 }
-func (r *rng) intn(n int) int {
+func (r *Rng) Intn(n int) int {
 	if n <= 0 {
 		return 0
 	}
-	return int(r.next() % uint64(n))
+	return int(r.Next() % uint64(n))
 }
-func (r *rng) bool() bool          { return r.next()&1 == 1 }
-func (r *rng) chance(pct int) bool { return r.intn(100) < pct }
-func pick[T any](r *rng, xs []T) T { return xs[r.intn(len(xs))] }
+func (r *Rng) Bool() bool          { return r.Next()&1 == 1 }
+func (r *Rng) Chance(pct int) bool { return r.Intn(100) < pct }
+func Pick[T any](r *Rng, xs []T) T { return xs[r.Intn(len(xs))] }
 
 // out collects the op lines sent to the Lean driver and the implementation's observation
 // for each, plus distribution statistics for the evidence file.
-type out struct {
+type Out struct {
 	dir     string
 	ops     *bufio.Writer
 	impl    *bufio.Writer
@@ -44,7 +46,7 @@ type out struct {
 	samples []string
 }
 
-func newOut(dir string) (*out, error) {
+func NewOut(dir string) (*Out, error) {
 	if err := os.MkdirAll(dir, 0o755); err != nil {
 		return nil, err
 	}
@@ -56,11 +58,11 @@ func newOut(dir string) (*out, error) {
 	if err != nil {
 		return nil, err
 	}
-	return &out{dir: dir, fo: fo, fi: fi, ops: bufio.NewWriterSize(fo, 1<<20), impl: bufio.NewWriterSize(fi, 1<<20), hist: map[string]int{}}, nil
+	return &Out{dir: dir, fo: fo, fi: fi, ops: bufio.NewWriterSize(fo, 1<<20), impl: bufio.NewWriterSize(fi, 1<<20), hist: map[string]int{}}, nil
 }
 
 // emit records one case: the op line for the model and the implementation's observation.
-func (o *out) emit(op, impl string) {
+func (o *Out) Emit(op, impl string) {
 	fmt.Fprintln(o.ops, op)
 	fmt.Fprintln(o.impl, impl)
 	if o.n < 5 || (o.n%9973 == 0 && len(o.samples) < 12) {
@@ -69,9 +71,9 @@ func (o *out) emit(op, impl string) {
 	o.n++
 }
 
-func (o *out) count(key string) { o.hist[key]++ }
+func (o *Out) Count(key string) { o.hist[key]++ }
 
-func (o *out) close(extra map[string]any) error {
+func (o *Out) Close(extra map[string]any) error {
 	o.ops.Flush()
 	o.impl.Flush()
 	o.fo.Close()
@@ -90,7 +92,7 @@ func (o *out) close(extra map[string]any) error {
 }
 
 // safely runs f and converts a panic into a string.
-func safely(f func()) (panicMsg string) {
+func Safely(f func()) (panicMsg string) {
 	defer func() {
 		if r := recover(); r != nil {
 			panicMsg = fmt.Sprint(r)
@@ -101,4 +103,40 @@ func safely(f func()) (panicMsg string) {
 	}()
 	f()
 	return ""
+}
+
+// Config is the common command line of every per-property harness binary:
+//
+//	harness-cXX -seed N -tier quick|thorough -out DIR
+type Config struct {
+	Seed   uint64
+	Tier   string
+	OutDir string
+	Args   []string
+}
+
+// ParseFlags reads the common flags.
+func ParseFlags() Config {
+	var c Config
+	flag.Uint64Var(&c.Seed, "seed", 1, "PRNG seed (VERIF_SEED)")
+	flag.StringVar(&c.Tier, "tier", "quick", "quick|thorough")
+	flag.StringVar(&c.OutDir, "out", "", "output directory for ops.txt / impl.txt / stats.json")
+	flag.Parse()
+	c.Args = flag.Args()
+	if c.OutDir == "" {
+		fmt.Fprintln(os.Stderr, "missing -out")
+		os.Exit(2)
+	}
+	return c
+}
+
+// Thorough reports whether the thorough tier was requested.
+func (c Config) Thorough() bool { return c.Tier == "thorough" }
+
+// B01 renders a verdict.
+func B01(b bool) string {
+	if b {
+		return "1"
+	}
+	return "0"
 }
